@@ -269,8 +269,8 @@ def spec_accepts(spec_line, impl_line):
     """spec line: '-' = no opinion; tokens '*' are wildcards; otherwise token-wise equality"""
     if spec_line.strip() == "-":
         return True
-    if spec_line.startswith("spec ok"):
-        return True
+    if spec_line.startswith("spec ok") or spec_line.startswith("spec CORR"):
+        return True      # "spec CORR": a model that is executed with the implementation's answers disagrees - correspondence
     if spec_line.startswith("spec FAIL"):
         return False
     st = spec_line.split()
@@ -307,7 +307,7 @@ def judge(r):
         i = r["impl"][k] if k < len(r["impl"]) else "<missing>"
         m = r["model"][k] if k < len(r["model"]) else "<missing>"
         s = r["spec"][k] if k < len(r["spec"]) else "-"
-        if i != m and not match_line(m, i) and corr_ok:
+        if ((i != m and not match_line(m, i)) or s.startswith("spec CORR")) and corr_ok:
             corr_ok = False
             bad = k if bad is None else bad
         if c.oracle and not spec_accepts(s, i) and oracle_ok:
